@@ -43,7 +43,7 @@ def r_seed_first(c):
         ("pytato.codegen.preprocess", (), ("copy_dict_of_named_arrays",)),
     ]
     for qn, mapper_classes, mint_funcs in specs:
-        fd = m.func(qn)
+        fd = m.inlined(m.func(qn))      # storing / seeding helpers are seen through
 
         gens = {e["$g"] for e in find(fd, "$g = UniqueNameGenerator($$__a)")} \
             | {e["$g"] for e in find(fd, "$g = UniqueNameGenerator()")}
@@ -155,6 +155,14 @@ def _prov(m, fd, node, depth=0):
         if vals:
             ps_ = {_prov(m, fd, v, depth + 1) for v in vals}
             return "|".join(sorted(ps_))
+        # the mapping is another local under a second name (an inlined helper's own)
+        al = [st.value for st in ast.walk(fd) if isinstance(st, (ast.Assign, ast.AnnAssign))
+              and st.value is not None and isinstance(st.value, ast.Name)
+              and any(isinstance(t, ast.Name) and t.id == node.value.id for t in (
+                  st.targets if isinstance(st, ast.Assign) else [st.target]))]
+        if len(al) == 1 and al[0].id != node.value.id:
+            return _prov(m, fd, ast.Subscript(value=ast.Name(id=al[0].id, ctx=ast.Load()),
+                                              slice=node.slice, ctx=ast.Load()), depth + 1)
         # the mapping is built by a private helper: look at what the helper stores
         for st in ast.walk(fd):
             if isinstance(st, (ast.Assign, ast.AnnAssign)) and st.value is not None \
@@ -267,15 +275,49 @@ NAME_SINKS = {   # callee -> (positional index of the name, keyword)
 }
 
 
+def _analysed(m, modname):
+    """(function as analysed, qualified name) for the top-level functions and methods
+    of a module: each with its private module-level helpers inlined; a helper all of
+    whose calls were inlined is analysed through its callers and not on its own (its
+    parameters get their provenance from the call site)"""
+    mi = m.module(modname)
+    tops = [fd for _mi, fd in m.all_functions(modules=[modname])
+            if m.enclosing_function(fd) is None]
+    inl = {}
+    for fd in tops:
+        try:
+            inl[id(fd)] = m.inlined(fd)
+        except AnalysisError:
+            inl[id(fd)] = fd
+    still_called, called = set(), set()
+    for fd in tops:
+        for x in ast.walk(fd):
+            if isinstance(x, ast.Call) and isinstance(x.func, ast.Name):
+                called.add(x.func.id)
+        for x in ast.walk(inl[id(fd)]):
+            if isinstance(x, ast.Call) and isinstance(x.func, ast.Name):
+                still_called.add(x.func.id)
+            elif isinstance(x, ast.Name) and isinstance(x.ctx, ast.Load) \
+                    and x.id in mi.functions and not (
+                        isinstance(getattr(x, "_parent", None), ast.Call)
+                        and x._parent.func is x):
+                still_called.add(x.id)       # handed on as a value
+    for fd in tops:
+        helper = isinstance(getattr(fd, "_parent", None), ast.Module) \
+            and fd.name.startswith("_") and fd.name in called \
+            and fd.name not in still_called
+        if not helper:
+            yield inl[id(fd)], m.qualname(fd).replace("pytato.", "", 1)
+
+
 def r_provenance(c):
     m = c.model
     n = 0
     for modname in (LC, "pytato.codegen"):
         mi = m.module(modname)
-        for _mi, fd in m.all_functions(modules=[modname]):
-            if m.enclosing_function(fd) is not None:
+        for fd, qn in _analysed(m, modname):
+            if False:
                 continue
-            qn = m.qualname(fd).replace("pytato.", "", 1)
             for call in ast.walk(fd):
                 if not isinstance(call, ast.Call):
                     continue
@@ -341,10 +383,7 @@ def r_provenance(c):
                                     f"default prefix {k.value.value!r} is outside the "
                                     f"reserved {RESERVED} name space")
     # loop variables (inames): every element of an iname tuple is minted
-    for _mi, fd in m.all_functions(modules=[LC]):
-        if m.enclosing_function(fd) is not None:
-            continue
-        qn = m.qualname(fd).replace("pytato.", "", 1)
+    for fd, qn in _analysed(m, LC):
         for call in ast.walk(fd):
             if not isinstance(call, ast.Call):
                 continue
